@@ -167,6 +167,17 @@ func concRun(enc *json.Encoder, seed int64, nmut, nreaders, yieldPct int, st *st
 			n := names[mr.Intn(2)]
 			c := store.GetCollection(n)
 			key := u.Keys[mr.Intn(len(u.Keys))]
+			if i%40 == 39 {
+				// drain: delete every key of this collection (it becomes empty
+				// under the readers' feet), the following sets refill it
+				for _, k := range u.Keys {
+					s := lg.next()
+					lg.add(s, Ev{"e": "MStart", "c": u.NameID(n), "op": "del", "k": u.KeyID(k, false), "v": 0, "p": 0, "kl": 0, "vl": 0})
+					res, err := c.Delete(k)
+					lg.add(lg.next(), Ev{"e": "MEnd", "err": err != nil, "res": res})
+				}
+				continue
+			}
 			switch r := mr.Intn(10); {
 			case r < 6:
 				val, _ := u.NewValue(mr, false, nil)
